@@ -56,6 +56,10 @@ Step(ev) ==
         ELSE IF ev.rec # RecoverSeq(CrashImage(files)) THEN Verdict(ev, "recovery of the crash image differs from Recover")
         ELSE IF \E w \in Writers : ack[w] = "ok" /\ w \notin RangeS(ev.rec) THEN Verdict(ev, "acked write missing after crash")
         ELSE TRUE
+  \/ /\ ev.a = "restart"       \* node level: the server's restart sequence on the final crash image
+     /\ UNCHANGED <<files, ack, run>> /\ Keep
+     /\ IF \E i \in DOMAIN ev.acked : ev.acked[i] \notin RangeS(ev.visible) THEN Verdict(ev, "a write acknowledged to the client is not visible after restart")
+        ELSE TRUE
   \/ /\ ev.a = "panic"
      /\ UNCHANGED <<files, ack, run>> /\ Keep /\ Verdict(ev, "actor panicked")
   \/ /\ ev.a = "delete"
